@@ -201,8 +201,10 @@ func runC04(r *an.Run) {
 			}()
 			// case bytes.Equal(txOut.PkScript, ourScript.PkScript()): ourIndex = ...
 			for _, s := range g.Assigns(func(fn *an.Func, e ast.Expr) bool { _, ok := e.(*ast.Ident); return ok }, false) {
-				as := s.Node.(*ast.AssignStmt)
-				if as.Tok.String() != "=" || len(as.Lhs) != 1 {
+				// (an index loop adds `i++`, which is a write of an identifier
+				// but not an assignment statement)
+				as, isAssign := s.Node.(*ast.AssignStmt)
+				if !isAssign || as.Tok.String() != "=" || len(as.Lhs) != 1 || len(as.Rhs) != 1 {
 					continue
 				}
 				if c := g.Canon(as.Rhs[0]); !strings.HasPrefix(c, "uint32($v:int)") && !strings.HasPrefix(c, "uint32($key(") {
